@@ -27,8 +27,14 @@ def check(run, F, tier):
                        "compared per guard valuation; size() and enum dispatch wiring. Byte-exact parse(encode(x)) = x is NOT decided "
                        "by this family.")
     r1 = run.rule("C02-R1", "to_continuous_buffer and to_buffers append the same sources in the same order under the same conditions", floor=60)
-    ps = serial.pairs(F)
+    ps = serial.pairs(F, both=False)
+    if not serial.has_vectored(F):
+        # built without `std`: there is no to_buffers() (no IoSlice) in this configuration, nothing to compare
+        r1.floor = 0
+        r1.note("configuration %s has no vectored serialiser (std feature off): sibling comparison not applicable" % F.cfg)
     for ty, m in sorted(ps.items()):
+        if "to_buffers" not in m:
+            continue
         key = ty.split("<")[0].replace("mqtt::packet::", "")
         try:
             a, ua = serial.sequences(F, m["to_continuous_buffer"])
